@@ -192,6 +192,17 @@ def specStep [DecidableEq α] (E : Elem α) (sp : Sp α) (op : Op α) : Sp α ×
         else fun a b => decide (E.key b < E.key a)) l).getD l, .ok)
     else (sp, .skip)
   | .iter h => if sp.occ h then (sp, .ok) else (sp, .skip)
+  | .appown h j k =>
+    if sp.occ h then
+      (sMut sp h fun l => let j' := j % (l.length + 1); l ++ (l.drop j').take (k % (l.length - j' + 1)), .ok)
+    else (sp, .skip)
+  | .copyown h j k =>
+    if sp.occ h then
+      (sMut sp h fun l => let j' := j % (l.length + 1); (l.drop j').take (k % (l.length - j' + 1)), .ok)
+    else (sp, .skip)
+  | .remx h i c =>
+    -- a count that reaches beyond the end removes nothing (documented by the range test of `remove`)
+    if sp.occ h then (sMut sp h fun l => if i + c > l.length then l else remAt l i c, .ok) else (sp, .skip)
 
 /-- what the reference semantics shows through one slot: the sequence and the number of sharing handles -/
 def Sp.view (sp : Sp α) (h : Nat) : Option (List α × Nat) :=
